@@ -110,6 +110,13 @@ def run_case(case):
     prof = make_profiles(r, nb, n, case["pkind"])
     s, ps, ef, imp = build(case, prof, Z)
     # "for every set of bunch profiles": whatever the field object was asked before must not matter
+    if case.get("intzero"):
+        # the grid was integrated while it was still empty (a phase space built from zeros, to be filled later) and only
+        # its projection is refreshed afterwards: the field works on the CURRENT profile, not on the total charge the
+        # grid remembers (round-10 seeds C06j / C07j return zeros when that remembered charge is zero)
+        for b in range(nb):
+            s.ps_set_projection(ps, 0, b, np.zeros(n, np.float32))
+        s.ps_op(ps, "integrate")
     for op in case.get("prelude", []):
         other = make_profiles(r, nb, n, "noise")
         for b in range(nb):
@@ -218,6 +225,7 @@ def cases(draw):
                 variant=draw(st.sampled_from(["none", "none", "neghalf", "linear", "shift"])),
                 prelude=draw(st.lists(st.sampled_from([["csr", 0.0], ["csr", 1e10], ["wake"], ["pad"]]), max_size=3)),
                 zadd=(draw(st.integers(1, 10000)) if draw(st.integers(0, 4)) == 0 else 0),
+                intzero=draw(st.integers(0, 3)) == 0,
                 Lq=draw(st.sampled_from([4.0, 6.0])), Lp=draw(st.sampled_from([4.0, 6.0, 9.0])),
                 sigma_z=lg(1e-4, 1e-2), dE=lg(1e5, 1e6), frev=lg(1e5, 1e8), revpart=lg(1e-5, 1e-2),
                 Ib=lg(1e-5, 1e-1), E0=lg(1e8, 1e10), sE=lg(1e-4, 1e-3), dt=lg(1e-12, 1e-9))
